@@ -195,8 +195,23 @@ def check_arith(ctx, lib, c):
             ctx.count(c, True, cls + ":zero")
             expect(canonical(out), sig + "/noncanonical", "inverse of zero produced a non-reduced word")
             return
-        rv, out = lib.op(pf + "_inv", A)
+        flat = _flatten(a)
+        first_inplace = bool((flat[0] >> 5) & 1)      # (a function of the case)
+        rv, out = lib.op(pf + "_inv", A, alias="a" if first_inplace else None)
         exp = ref_inv(deg, a)
+        expect(FROM_B[deg](out) == exp, sig + ("/inplace" if first_inplace else "/value"), lambda: "case=%r" % (c,))
+        # related calls directly afterwards: the inverse of a conjugate of a (same norm down the tower, different element), the inverse
+        # of that result (must give the conjugate back), a again in place, and the inverse of that
+        cj = ref_frob(deg, a, 1 if deg == 2 else 2 + 2 * ((flat[0] >> 7) & 1))
+        o3 = lib.op(pf + "_inv", TO_B[deg](cj), alias="a" if (flat[0] >> 6) & 1 else None)[1]
+        expect(FROM_B[deg](o3) == ref_inv(deg, cj), sig + "/after-related-call/conjugate", lambda: "case=%r: inverse(conjugate of a) after inverse(a) is wrong" % (c,))
+        r4 = lib.op(pf + "_inv", o3)[1]
+        expect(FROM_B[deg](r4) == cj, sig + "/after-related-call/inverse-of-result", lambda: "case=%r: inverse(inverse(conjugate of a)) != conjugate" % (c,))
+        r5 = lib.op(pf + "_inv", A, alias="a")[1]
+        expect(FROM_B[deg](r5) == exp, sig + "/after-related-call/repeat", lambda: "case=%r: inverse(a) again (in place) is different" % (c,))
+        r2 = lib.op(pf + "_inv", r5)[1]
+        expect(FROM_B[deg](r2) == a, sig + "/after-related-call/inverse-of-result", lambda: "case=%r: inverse(inverse(a)) != a" % (c,))
+        cls += "-inplace" if first_inplace else ""
     elif op == "mulnr":
         rv, out = lib.op(pf + "_mulnr", A)
         exp = F.fq2_mul(a, F.XI) if deg == 2 else F.fq6_mul_by_v(a)
